@@ -392,25 +392,46 @@ def design_runs(res, runs, workers=4):
     return outs
 
 
-def tlapm(module, timeout=600):
-    """Check the TLAPS proofs of spec/<module>.tla in a scratch directory. Returns (obligations, proved)."""
+def tlapm(module, timeout=900):
+    """Check the TLAPS proofs of spec/<module>.tla in a scratch directory. Returns (obligations, proved).
+    The result depends only on the specification files, so it is cached by their content hash; the
+    back-end provers run with stretched time-outs and the run is repeated (a prover time-out under
+    machine load must not look like a failed proof)."""
     import tempfile
-    d = tempfile.mkdtemp(prefix="tlapm.", dir=CACHE if os.path.isdir(CACHE) else None)
-    try:
-        for f in glob.glob(os.path.join(SPEC, "*.tla")):
-            shutil.copy(f, d)
-        r = subprocess.run(["timeout", str(timeout), "tlapm", "--cleanfp", "-I", d, module + ".tla"], cwd=d,
-                           stdout=subprocess.PIPE, stderr=subprocess.STDOUT, text=True, errors="replace")
-        out = r.stdout
-        m = re.search(r"All (\d+) obligations? proved", out)
+    files = sorted(glob.glob(os.path.join(SPEC, "*.tla")))
+    key = _digest([f for f in files if os.path.basename(f) in (module + ".tla", "ChunkingBase.tla")], ("tlapm", module))
+    cdir = os.path.join(CACHE, "proofs"); os.makedirs(cdir, exist_ok=True)
+    cpath = os.path.join(cdir, key + ".json")
+    if os.path.exists(cpath):
+        try:
+            c = json.load(open(cpath))
+            return c["n"], c["ok"]
+        except ValueError:
+            pass
+    last = ""
+    best = None
+    for attempt in range(3):
+        d = tempfile.mkdtemp(prefix="tlapm.", dir=CACHE)
+        try:
+            for f in files:
+                shutil.copy(f, d)
+            r = subprocess.run(["timeout", str(timeout), "tlapm", "--cleanfp", "--stretch", str(3 + 3 * attempt), "-I", d, module + ".tla"], cwd=d,
+                               stdout=subprocess.PIPE, stderr=subprocess.STDOUT, text=True, errors="replace")
+            last = r.stdout
+        finally:
+            shutil.rmtree(d, ignore_errors=True)
+        m = re.search(r"All (\d+) obligations? proved", last)
         if m:
-            return int(m.group(1)), int(m.group(1))
-        m = re.search(r"(\d+)/(\d+) obligations failed", out)
+            n = int(m.group(1))
+            with open(cpath, "w") as f:
+                json.dump({"n": n, "ok": n, "module": module}, f)
+            return n, n
+        m = re.search(r"(\d+)/(\d+) obligations failed", last)
         if m:
-            return int(m.group(2)), int(m.group(2)) - int(m.group(1))
-        raise Infra("tlapm failed on %s:\n%s" % (module, out[-2000:]))
-    finally:
-        shutil.rmtree(d, ignore_errors=True)
+            best = (int(m.group(2)), int(m.group(2)) - int(m.group(1)))
+    if best:
+        return best
+    raise Infra("tlapm failed on %s:\n%s" % (module, last[-2000:]))
 
 
 def proofs(res, module):
